@@ -189,6 +189,7 @@ class CheckValueSpec(FunctionSpec):
 
     fq = Q_MOD + ":Quantity.CheckValue"
     props = ("C12",)
+    probe = "validity"
     callees = (Q_MOD + ":Quantity.ConvertScalarValue",)
 
     def variants(self, tier):
